@@ -1,4 +1,5 @@
 import PoolProofs.C09Lemmas
+import PoolModel.Generated.C09Facts
 
 /-!
 # C09 — every tracked account is reported expired once, at or after its expiry height
@@ -166,6 +167,29 @@ theorem C09_unregistered_silent (s : St) (g : Key → Option G) (op : Op) (k : K
   | block b =>
     simp only [step]
     rw [visit_cnt]; simp [hk]
+
+/-- **Visiting order is irrelevant** (Go map iteration order): two entry lists with the same members give
+the same resulting expiry map and the same number of notifications per account. -/
+theorem C09_visit_order_irrelevant (sel : Sel) (b : Nat) (l l' : List (Nat × Key)) (e : Key → Option Nat)
+    (hperm : ∀ p, p ∈ l ↔ p ∈ l') (k : Key) :
+    (visit sel b l e).1 k = (visit sel b l' e).1 k ∧
+    cnt (visit sel b l e).2 k = cnt (visit sel b l' e).2 k := by
+  rw [visit_exp, visit_exp, visit_cnt, visit_cnt]
+  cases e k with
+  | none => exact ⟨rfl, rfl⟩
+  | some h => simp [hperm (h, k)]
+
+/-- **Tie to the source (regenerated facts).**  The model's atomic-op granularity and its three guards are
+those of the current `account/watcher/watcher.go`: both entry points hold the mutex for their whole body,
+`NewBlock` visits the buckets with `height <= bestHeight` (`selUpTo`), `AddAccountExpiration` hands off
+immediately iff `expiry <= bestHeight`, and `overdueExpirations` skips an entry iff the key is untracked or
+tracked for another height.  Re-checked against the Go source on every run. -/
+theorem C09_source_shape :
+    Gen.C09.newBlockLocked = true ∧ Gen.C09.addLocked = true ∧
+    Gen.C09.bucketCond = "height <= bestHeight" ∧
+    Gen.C09.addExpiredCond = "expiry <= w.bestHeight" ∧
+    Gen.C09.overdueSkipCond = "!ok || blockHeight != curExpiry" := by
+  decide
 
 /-! ## The rule of the pinned tree (only the bucket of exactly the new height) violates the property -/
 
